@@ -78,6 +78,26 @@ def axis_table_clause(model, rep, funcs):
             why = "" if okc else "the grid is not centred at (shape - 1) / 2"
         rep.ob("F", f.anchor, "local sampling grid = pos/scale + sum_k axis_k * (index_k - (shape_k-1)/2) with indices paired z,y,x and broadcast on array axes 1,2,3",
                bool(ok and okc), why, node=f.node, fn=f, clause="1 axis table", stmt="def local_coordinates")
+    # from_axes: the missing axis is the cyclic cross product of the two given ones (x cross y = z, y cross z = x, z cross x = y), then (z, y) go to axes_to_rotator
+    f = funcs.get(MC + "Molecules.from_axes")
+    if f is not None:
+        rep.instance("F.axes", f.loc())
+        cyc = {"z": ("x", "y"), "x": ("y", "z"), "y": ("z", "x")}
+        derived = []
+        bad = []
+        for n in walk_no_nested(f.node):
+            if isinstance(n, ast.Assign) and len(n.targets) == 1 and isinstance(n.targets[0], ast.Name) and isinstance(n.value, ast.Call) and \
+                    (dotted(n.value.func) or "").split(".")[-1] == "cross" and len(n.value.args) >= 2:
+                t = n.targets[0].id
+                a0, a1 = norm_src(n.value.args[0]), norm_src(n.value.args[1])
+                derived.append(t)
+                if t not in cyc or (a0, a1) != cyc[t]:
+                    bad.append(f"`{norm_src(n)}`: right-handed axes need {t} = cross({', '.join(cyc.get(t, ('?', '?')))})")
+        M11 = Matcher(f)
+        okr = M11.all_of(["$r = axes_to_rotator(z, y)", "return cls(pos, $r)"])[0]
+        rep.ob("F", f.anchor, "from_axes completes the given pair to a right-handed (z, y, x) frame: the missing axis is the cyclic cross product of the other two",
+               bool(derived) and not bad and okr, "; ".join(bad) or ("" if okr else "the frame is not handed to axes_to_rotator(z, y)"), node=f.node, fn=f,
+               clause="1 axis table", stmt="def from_axes")
     for a in (MC + "cross", "acryo/simulator.py::cross"):
         f = funcs.get(a)
         if f is None:
